@@ -16,14 +16,24 @@ def run(R):
     ok, badthm = R.prove()
     quick = R.tier == "quick"
     ops, meta = CS.gen_stream(R, 2500 if quick else 60000, entries=("rn",), big_frac=0.06)
-    # every op is independent: one group each
-    ops, meta, il, ml = CS.run_budgeted(R, ops, meta, group_starts=list(range(len(ops))))
-    diffs = compare(R, ops, il, ml, CS.proj_crypt, "first hash")
+    starts = list(range(len(ops)))
+    # the produced hash must verify whatever the data object held when it was produced: first call on an object the application filled
+    # (0xff / random / pattern; crypt.h asks only for `initialized = 0`), every method, phrase-length classes 2 / 32 / 257; the re-hash below runs
+    # on the object as that call left it (seeded/C01e: a hash made on a never-cleared object could not be verified afterwards)
+    ph257 = bytes(0x21 + (i * 7) % 94 for i in range(257))
+    for m in S.METHODS:
+        for ph in (b"pw", b"a phrase longer than eight bytes", ph257):
+            for fill in "frp":
+                starts.append(len(ops))
+                ops.append("O 0 %s %d %d" % (fill, R.rng.randrange(16), R.rng.randrange(1 << 30))); meta.append(("setup", "obj", 0, 0))
+                ops.append(CS.crypt_op("r" if fill == "f" else "rn", 0, ph, S.CANON[m])); meta.append((m, "first-call-on-filled-object", len(ph), len(S.CANON[m])))
+    ops, meta, il, ml = CS.run_budgeted(R, ops, meta, group_starts=starts)
+    diffs = compare(R, ops, il, ml, lambda op, a, b: CS.proj_crypt(op, a, b) if op.startswith("C ") else None, "first hash")
     # second round: for every success, re-hash with H and with H whose hash portion is replaced
     ops2, meta2, want = [], [], []
     for op, m, line in zip(ops, meta, il):
         f = fields(line)
-        if f.get("ret") == "NULL" or f.get("out", "2a").startswith("2a"): continue
+        if not op.startswith("C ") or f.get("ret") == "NULL" or f.get("out", "2a").startswith("2a"): continue
         H = unhx(f["out"]); ph = op.split(" ")[3]
         n = hash_part_len(m[0], H)
         ops2.append("C rn 0 %s %s" % (ph, hx(H))); meta2.append((m[0], "rehash:" + m[1], m[2], len(H))); want.append(H)
